@@ -30,9 +30,9 @@
 //! declared orderings come from `MemTable::with_sort_order`.
 //!
 //! Known findings (open, /verif/known_findings.json; outcome-keyed: a case is excluded only when it fails and every
-//! violated claim in it is an instance of an open finding): `outer-join-constant-of-null-padded-side` (WRONG RESULT,
-//! fix verified), `running-window-aggregate-ordering-ignores-leading-nulls` (WRONG RESULT, fix verified),
-//! `topk-aggregate-keeps-input-ordering` (fix verified), `merge-keeps-orderings-other-than-the-merge-key`,
+//! violated claim in it is an instance of an open finding): `running-window-aggregate-ordering-ignores-leading-nulls`
+//! (WRONG RESULT), `merge-keeps-orderings-other-than-the-merge-key`, (FIXED in /repo, cases are plain regressions:
+//! `outer-join-constant-of-null-padded-side`, `topk-aggregate-keeps-input-ordering`),
 //! `sliding-window-count-declared-monotonic` (no repair proposed), `join-suffix-ordering-with-tied-probe-keys` (WRONG RESULT;
 //! fix fixes/C28-join-suffix-ordering-with-tied-probe-keys.diff written, applies, NOT verified with mutrun).
 //! Panics of operators during a node's execution are carried as node errors (label `node-panic`), not judged.
@@ -423,14 +423,9 @@ pub fn check(w: &Walk) -> (Facts, Vec<Finding>) {
     let mut findings = vec![];
     for n in &w.nodes {
         if let Err(msg) = check_node(n, &mut f) {
-            let probe = walk::probe_plan(&n.plan);
-            let sig = if n.name == "AggregateExec" && n.display.contains("lim=[") && msg.contains("declares the ordering") || n.name == "AggregateExec" && n.display.contains("lim=[") && msg.contains("declares output_ordering()") {
-                // known finding: a TopK-limited aggregate keeps declaring the ordering derived from its sorted input
-                Some("topk-aggregate-keeps-input-ordering".to_string())
-            } else if probe.outer_join_padded_constant && (msg.contains(" constant") || msg.contains("equivalence class") || msg.contains("declares the ordering") || msg.contains("declares output_ordering()")) {
-                // known finding: constants of the NULL-padded side survive an outer join (and orderings derived from them)
-                Some("outer-join-constant-of-null-padded-side".to_string())
-            } else if is_ordering(&msg) && walk::subtree_has(&n.plan, &|p| p.name().contains("WindowAggExec") && { let d = walk::one_line_full(p.as_ref()); d.contains("wdw=[count(") && !d.contains("UNBOUNDED PRECEDING") }) {
+            // (fixed and no longer recognised: outer-join-constant-of-null-padded-side, topk-aggregate-keeps-input-ordering —
+            // their cases are plain regressions now)
+            let sig = if is_ordering(&msg) && walk::subtree_has(&n.plan, &|p| p.name().contains("WindowAggExec") && { let d = walk::one_line_full(p.as_ref()); d.contains("wdw=[count(") && !d.contains("UNBOUNDED PRECEDING") }) {
                 // known finding: a sliding-frame count() is declared set-monotonic (its output "sorted") although rows leave the frame
                 Some("sliding-window-count-declared-monotonic".to_string())
             } else if is_ordering(&msg) && msg.contains("Null") && walk::subtree_has(&n.plan, &|p| p.name().contains("WindowAggExec")) {
